@@ -6,10 +6,10 @@ NOTE = ("Trusted: Lean 4.33 kernel + axioms propext/Quot.sound/Classical.choice 
         "the hand-written Lean model of /repo/src and the correspondence check that ties it to the current tree (harness built from /repo's working tree with "
         "ASan/UBSan/_GLIBCXX_ASSERTIONS, Lean driver, canonical dumps); FloatOps instantiated by Lean Float32; libstdc++ container/stream semantics as modelled.")
 P = {
- "C01": ("theorems on the model's writer/reader pieces + per-op correspondence of saved bytes and reloaded objects; oracle: content of the saving object == content of the object loaded from the library's own file", "§6 C01"),
- "C03": ("theorems on the model's writer (record offsets, padding for every residue, block count, data start) + bytes of every library save == model bytes; oracle: the independent Lean Spec decoder follows the file's own pointers and is compared clause by clause with the saving object", "§6 C03"),
- "C02": ("model of the readers (Lean) + correspondence on files written by an independent spec-level encoder over all layout variants; oracle: the loaded object vs. the independent Lean Spec decoder on the same bytes", "§6 C02"),
- "C04": ("model reader/writer + correspondence on load -> save -> load -> save -> load -> save of generated and vendor files; oracle: content of generation 1 == generation 2, bytes of generation 3 == generation 4", "§6 C04"),
+ "C01": ("Lean theorem C01.load_write: for EVERY object of a decidable domain (any groups, parameters of every type and shape within the format's capacity, frames of the announced shape, header agreeing with the parameters) load(write s) = reloaded s, with reloaded_* theorems giving the clauses (header counts, upper-cased names, type/dims/values/description/lock, samples bit for bit) and a kernel-checked state inside the domain; tied to the library by per-op correspondence (saved bytes == model bytes, reloaded dump == model dump); the driver evaluates the domain predicate on every saving state (evidence: share of saves inside the theorem's domain); outside the domain: oracle content(saving object) == content(object loaded from the library's file)", "§6 C01"),
+ "C03": ("Lean theorems on the model's writer: the parameter section byte for byte (prologue, exact block count, plain records with POINT:DATA_START = block after the section, zero padding for every residue), record offsets, header length and data-start word, data length; the model's own loader walks these bytes to the terminator (C02.records_decoded); bytes of every library save == model bytes; oracle: the independent Lean Spec decoder follows the file's own pointers and is compared clause by clause with the saving object, incl. files loaded from other layouts and saved again; not proved: Spec.decode(write s) = content s as a theorem", "§6 C03"),
+ "C02": ("partial: Lean theorems that the loader's readers decode the record formats for every content they can hold (header record, parameter record of each type/shape, group record, record chain with gaps between ids, data section) for the block-2 / no-leading-zeros / group-then-parameters layout; the other declared vendor layouts (leading zeros, zeroed prologue, other block, any record order) rest on correspondence over files from an independent spec-level encoder with the independent Lean Spec decoder as oracle", "§6 C02"),
+ "C04": ("Lean theorems: the object load returns for the bytes of a write is written as exactly those bytes again (C04.resave_byte_identical) and loads to itself (generations_stable) - i.e. generations 2, 3, ... are fixed; the first generation (arbitrary vendor layout) rests on correspondence of load -> save -> load -> save -> load -> save on generated and vendor files; oracle: content of generation 1 == generation 2, bytes of generation 3 == generation 4", "§6 C04"),
  "C12": ("Lean theorems: the byte codec is two's complement / unsigned little endian for all 2^8 and 2^16 inputs, writers are inverse to readers; exhaustive correspondence over all one- and two-byte inputs and files carrying every pattern", "§6 C12"),
  "C13": ("partial: Lean theorems that the model never evaluates an unchecked container access out of range on reachable states; every lane of C01-C12 re-run under ASan/UBSan/_GLIBCXX_ASSERTIONS with destruction; cannot exhibit: errors the sanitizers do not see", "§6 C13"),
  "C14": ("partial: the model's writer is a function of the object (purity/repeatability by construction) and bytes(library) == bytes(model) on every save; two-fill-byte differential and valgrind memcheck for definedness; cannot exhibit: indeterminate bytes equal in both runs", "§6 C14"),
@@ -21,7 +21,7 @@ P = {
  "C05": ("agreement of header / POINT-ANALOG parameters / stored frames evaluated after every successful call of generated histories on the library and the model", "§6 C05"),
  "C06": ("Lean theorems: append / replace / extend / others-unchanged / column adds for all sizes and indices on the model; per-op correspondence with the library; oracle on frame snapshots before/after each call", "§6 C06"),
  "C07": ("guard ladder of the frame/column mutators in the model + correspondence of outcome classes; three-valued oracle (must-refuse with class / must-accept / free) on the library", "§6 C07"),
- "C08": ("value-level model (the store never aliases caller objects) checked against the library with caller-side mutations and re-submission of the same frame object", "§6 C08"),
+ "C08": ("Lean heap-level model (handles for Points/Analogs payloads), separation invariant for every history and refinement to the value model; the `sep` op observes the invariant on the real heap after every call that hands data to the object, incl. objects loaded from point-only / channel-only files; caller-side mutations and re-submission of the same frame object", "§6 C08"),
  "C09": ("Lean theorems on replace-or-append and Parameter::set acceptance + correspondence on edit sequences and on a (type, dims, count) grid", "§6 C09"),
  "C10": ("model: Outcome.throw carries the state left behind; per-op correspondence of the full object dump after every throwing call; oracle: dump after throw == dump before", "§6 C10"),
  "C11": ("Lean theorems for positional/by-name/typed look-ups over all sizes, indices and names + complete grid run on library, model and an independent oracle", "§6 C11"),
